@@ -115,7 +115,7 @@ func (m *M) SRandom(r int, data []byte, chunks []int) {
 }
 
 var chunkClasses = []string{"whole", "whole", "1+31", "31+1", "16+16", "bytes", "zero_reads", "random", "big"}
-var blockClasses = []string{"zero", "n", "one", "n_minus_1", "n_plus_1", "max", "two_n_wrap", "random", "random", "top_limb_n"}
+var blockClasses = []string{"zero", "n", "one", "n_minus_1", "n_plus_1", "max", "two_n_wrap", "random", "random", "top_limb_n", "stored_limb_struct", "stored_limb_struct", "stored_limb_struct", "limbwise_n"}
 
 func (m *M) chunksOf(class string, total int) []int {
 	var out []int
@@ -172,6 +172,10 @@ func (m *M) blockOf(class string) []byte {
 		b := be32(bigN)
 		copy(b[16:], m.randBytes(16))
 		return b
+	case "stored_limb_struct": // a block whose STORED (Montgomery) form has structured / related limbs
+		return be32(mulmod(new(big.Int).Mod(m.limbStruct(), bigN), rInvN, bigN))
+	case "limbwise_n":
+		return be32(m.limbwiseNeighbour(bigN))
 	default:
 		return m.randBytes(32)
 	}
@@ -235,6 +239,48 @@ func (m *M) dstOf(l int) []byte {
 	return m.randBytes(l)
 }
 
+// DST lengths at and beyond the 16-bit boundary (lengths are written as 1- and 2-byte integers in expand_message)
+var giantDstLens = []int{65535, 65536, 65536 + 49, 65536 + 255, 65536 + 256, 131072}
+
+// giantDue: one call with such a tag per shard at the quick tier (its SHA-256 is ~1000 blocks in TLC), a few at thorough.
+func (m *M) giantDue() bool {
+	if m.giants >= m.giantMax {
+		return false
+	}
+	m.giants++
+	return true
+}
+
+// reusedBuffers: the caller keeps ONE message buffer and ONE DST buffer across several calls and edits them in
+// place between the calls (a counter in the tag, a new message read into the same buffer): each call must
+// depend on the bytes the slices hold at the time of THAT call, whatever an earlier call saw behind the same pointers.
+func (m *M) reusedBuffers(call func(msg, dst []byte)) {
+	dl := []int{16, 49, 255, 256, 257, 300, 300}[m.rng.Intn(7)]
+	ml := []int{0, 1, 32, 64, 100}[m.rng.Intn(5)]
+	dstBuf := append(make([]byte, 0, dl+8), m.dstOf(dl)...)
+	msgBuf := append(make([]byte, 0, ml+8), m.randBytes(ml)...)
+	m.class("layout:buffers_reused_dst" + itoa(dl))
+	for k := 0; k < 3; k++ {
+		call(msgBuf, dstBuf)
+		switch m.rng.Intn(4) {
+		case 0, 1: // edit the tag in place
+			dstBuf[m.rng.Intn(len(dstBuf))] ^= byte(1 + m.rng.Intn(255))
+		case 2: // edit the message in place
+			if len(msgBuf) > 0 {
+				msgBuf[m.rng.Intn(len(msgBuf))] ^= byte(1 + m.rng.Intn(255))
+			} else {
+				dstBuf[0]++
+			}
+		default: // both, then back to an EARLIER content in the last round
+			dstBuf[len(dstBuf)-1]++
+			if len(msgBuf) > 0 {
+				msgBuf[0]++
+			}
+		}
+	}
+	call(msgBuf, dstBuf)
+}
+
 func genC08(m *M, budget int) {
 	i := 0
 	for m.events < budget {
@@ -277,6 +323,18 @@ func genC08(m *M, budget int) {
 				m.EEncodeToGroup(m.rng.Intn(2), msg, dst)
 			}
 		}
+		m.reusedBuffers(func(msg, dst []byte) {
+			if m.rng.Intn(2) == 0 {
+				m.EHashToGroup(m.rng.Intn(2), msg, dst)
+			} else {
+				m.EEncodeToGroup(m.rng.Intn(2), msg, dst)
+			}
+		})
+		if m.giantDue() {
+			dst := m.dstOf(giantDstLens[m.rng.Intn(len(giantDstLens))])
+			m.class("dstlen:>=65535")
+			m.EEncodeToGroup(0, m.msgOf(3), dst)
+		}
 		// an empty / nil DST panics and produces nothing
 		if m.rng.Intn(2) == 0 {
 			m.EHashToGroup(0, m.msgOf(5), nil)
@@ -309,6 +367,12 @@ func genC09(m *M, budget int) {
 				m.class("layout:one_record")
 			}
 			m.SHashToScalar(m.rng.Intn(2), msg, dst)
+		}
+		m.reusedBuffers(func(msg, dst []byte) { m.SHashToScalar(m.rng.Intn(2), msg, dst) })
+		if m.giantDue() {
+			dst := m.dstOf(giantDstLens[m.rng.Intn(len(giantDstLens))])
+			m.class("dstlen:>=65535")
+			m.SHashToScalar(0, m.msgOf(3), dst)
 		}
 		if m.rng.Intn(2) == 0 {
 			m.SHashToScalar(0, m.msgOf(3), nil)
